@@ -55,6 +55,7 @@ RULE_FUNCS = [
     (GR.r_gap, ['R17']),
     (VR.r_viz, ['R20.a', 'R20.b', 'R20.c', 'R20.d']),
     (VR.r_viz_indexing, ['R20.a']),
+    (VR.r_viz_escaping, ['R20.e']),
     (WR.r_width_combinators, ['R13.c']),
     (FR.r_simple_fringe, ['R11.a']),
     (FR.r_maxub, ['R11.b']),
